@@ -117,7 +117,7 @@ _claim('C09',
        "C09.R1 every return wraps the unwrapped phase with wrap_phase('2pi') == mod(ncycles*2pi); C09.R2 frequency is "
        "freq_from_phase of the same unwrapped phase, freq_from_phase / phase_from_freq coefficients (product 1); "
        "C09.R3 homogeneity degrees (0, 0, 1) for hilbert / nht / quad, the normalisation core of amplitude_normalise and its per-column iteration budget; "
-       "C09.R4 method table total on the documented literals.",
+       "C09.R4 method table total on the documented literals; C09.R6 per-method pipeline (analytic signal = hilbert(IMFs or their amplitude-normalised form, axis=0) / quadrature_transform(IMFs); phase from phase_from_complex_signal(that signal, unwrapped, the caller's smoothing); amplitude = |signal| or the per-column upper envelope stored at its own (i, j) with the 2-D input lifted to 3-D and back); C09.R7 the unwrapped phase is unwrap(angle(signal), axis=0) + pi/2 in the shape of the signal, median smoothing exactly when requested with an odd window; amplitude_normalise works on a copy and returns the input's shape.",
        "the bulk of the behavioural statement: accuracy on sinusoids for any method, the effect of the smoothing window, "
        "'%' landing exactly on 2pi.",
        "def-use on evaluated terms + polynomial normal forms + homogeneity-degree domain")
@@ -125,13 +125,13 @@ _claim('C10',
        "C10.R1 class-by-class evaluation of row index, keep filter and value of hilberthuang and of the loop of "
        "hilberthuang_1d over the digitize index classes (below / in(k) / at-last-edge / above / nan) for E = 2,3,5; "
        "C10.R2 sibling agreement of the two maps; C10.R3 energy exponent, dense = toarray(sparse); C10.R4 bin definition; "
-       "C10.R5 dimension checks present, L1 library attributes resolve; C10.R6 ensure_2d contract (shape classes, values untouched).",
+       "C10.R5 dimension checks present, L1 library attributes resolve; C10.R6 ensure_2d contract (shape classes, values untouched). Recognisably wrong constructions are reported as violations, not as analysis errors: swapped np.digitize arguments, COO coordinates taken from the wrong vector, a keep-filter that tests the time coordinate or input values, reductions over the wrong axis, impossible reshapes, a time coordinate that the small array model shows not to be the sample index, wrong reducers / exponents, mis-spaced or rejected scales, 1-D allocation and IMF loop.",
        "floating-point summation order of duplicate sparse entries.",
        "finite abstract domain of digitize index classes with elementwise transfer functions")
 _claim('C11',
        "C11.R1 fold/unfold arithmetic of holospectrum evaluated over every pair of digitize classes (E1 in {2,3}, E2 in "
        "{2,4}): folded index fits the width, unfolds to [AM, carrier], the trim removes exactly the out-of-range classes; "
-       "C11.R2 squash table over the same accumulation (sum / count forms of the mean with the count classified); C11.R3 exponent and dimension checks; C11.R4 ensure_2d contract; L1.",
+       "C11.R2 squash table over the same accumulation (sum / count forms of the mean with the count classified); C11.R3 exponent and dimension checks; C11.R4 ensure_2d contract; L1. C11.R1 also evaluates the whole returned expression in a small row-major array model for two input shapes with opaque values: numpy's own shape errors (operands that do not broadcast, coordinate vectors of different lengths, impossible reshapes) and a result that is not [time x AM x carrier] / [AM x carrier] are violations; the time coordinate must list the sample index element by element.",
        "floating-point summation order.",
        "finite abstract domain of index-class pairs + term decoding")
 _claim('C14',
